@@ -54,7 +54,7 @@ def rand_op(rng, names_in, all_names, pool, wind):
         return dict(op="remove", name=rng.choice(names_in + ["ghost"]))
     name = rng.choice(names_in)
     if k < 0.40:
-        mode = rng.choice(["vel_only", "vel_only", "pose", "position_only", "tiny_pose", "full"])
+        mode = rng.choice(["vel_only", "vel_only", "pose", "position_only", "tiny_pose", "full", "rates_only"])
         return dict(op="set_state", name=name, mode=mode, V=round(rng.uniform(40, 120), 2), alpha=round(rng.uniform(-4, 8), 2),
                     beta=round(rng.uniform(-5, 5), 2), dp=[rng.uniform(-50, 50), rng.uniform(-50, 50), rng.uniform(-50, 50)],
                     E=[rng.uniform(-60, 60), rng.uniform(-30, 30), rng.uniform(-170, 170)])
@@ -86,6 +86,10 @@ def state_for(sc, o, MX):
         q = q + np.array([0.0, 3e-9, -2e-9, 1e-9])
         st["orientation"] = (q / np.linalg.norm(q)).tolist()
         st["position"] = [c + 1e-9 * (abs(c) + 1.0) for c in cur["position"]]
+    elif o["mode"] == "rates_only":
+        # same place, attitude and velocity: only the angular rates change
+        st = dict(cur)
+        st["angular_rates"] = [x + d for x, d in zip(cur["angular_rates"], (0.3, -0.1, 0.05))]
     elif o["mode"] == "full":
         st = {"velocity": o["V"], "alpha": o["alpha"], "beta": o["beta"]}      # everything else back to the defaults
     return st
